@@ -99,11 +99,11 @@ type c16Unit struct {
 	Only     string   `json:"only,omitempty"`     // replay: restrict to this package ID
 	Template string   `json:"template,omitempty"` // replay of part 3: restrict to this template
 
-	WorkDir string            `json:"-"` // where the (possibly rewritten) files are
-	fileMap map[string]string // work file -> path relative to the repository root
-	locate  func(file string, offset int) string // templates: the generated function around a position
-	groups  map[string]bool                      // templates: violation groups already reported
-	describe func(fn string) string
+	WorkDir   string                               `json:"-"` // where the (possibly rewritten) files are
+	fileMap   map[string]string                    // work file -> path relative to the repository root
+	locate    func(file string, offset int) string // templates: the generated function around a position
+	groups    map[string]bool                      // templates: violation groups already reported
+	describe  func(fn string) string
 	rewritten int
 }
 
@@ -702,14 +702,14 @@ func c16RemoveImport(af *ast.File, path string) {
 // invariants
 
 type c16Stats struct {
-	mu                                                          sync.Mutex
-	units, pkgs, failedPkgs, diags, diagsWithFix, fixes, edits  int64
-	remapped, typechecked, importsAdjusted, unsorted, endless   int64
-	zeroEndEdits, baselineBad                                   int64
-	variantPkgs, fillings, fillTriggered, fillRejected          int64
-	pairs, inputs, pairsUnasserted, rewrittenFiles              int64
-	byCheck                                                     map[string]int64
-	fixByCheck                                                  map[string]int64
+	mu                                                         sync.Mutex
+	units, pkgs, failedPkgs, diags, diagsWithFix, fixes, edits int64
+	remapped, typechecked, importsAdjusted, unsorted, endless  int64
+	zeroEndEdits, baselineBad                                  int64
+	variantPkgs, fillings, fillTriggered, fillRejected         int64
+	pairs, inputs, pairsUnasserted, rewrittenFiles             int64
+	byCheck                                                    map[string]int64
+	fixByCheck                                                 map[string]int64
 }
 
 func (s *c16Stats) add(f func(s *c16Stats)) {
@@ -743,7 +743,10 @@ func c16CheckPkg(res *vx.Result, st *c16Stats, p *c16Pkg, onFix func(d runner.Di
 				fn := u.locate(d.Position.Filename, f.offset(d.Position))
 				parts := strings.SplitN(fn, "_", 3)
 				if len(parts) == 3 && parts[0] == "T" {
-					group := fmt.Sprintf("%s:%s:%s:fix%d", kind, d.Category, parts[1], fi)
+					group := fmt.Sprintf("%s:%s:%s", kind, d.Category, parts[1])
+					if fi >= 0 {
+						group += ":fix" + strconv.Itoa(fi)
+					}
 					if u.groups[group] {
 						return
 					}
